@@ -992,14 +992,18 @@ class MetaGrid(object):
         meta_size = self._meta_size(level)
 
         xs = list(range(x0, x1+1, meta_size[0]))
+        # ys is ordered from the top row down, for either origin
         if self.grid.flipped_y_axis:
             y0, y1 = y1, y0
             ys = list(range(y0, y1+1, meta_size[1]))
+            y_min, y_max = ys[0], ys[-1]
         else:
             ys = list(range(y1, y0-1, -meta_size[1]))
+            y_min, y_max = ys[-1], ys[0]
 
-        ll = (xs[0], ys[-1], level)
-        ur = (xs[-1], ys[0], level)
+        # two opposite corner tiles of the block
+        ll = (xs[0], y_min, level)
+        ur = (xs[-1], y_max, level)
         # add meta_size to get full affected bbox
         ur = ur[0]+meta_size[0]-1, ur[1]+meta_size[1]-1, ur[2]
         abbox = self.grid._tiles_bbox([ll, ur])
